@@ -491,6 +491,17 @@ pub fn ev_term(e: &Ev) -> String {
         Ev::CommitRet(o) => format!("ECommitRet {o}"),
     }
 }
+/// Gallina term of the state a process starts in on a crash image (Crash.v `from_image`): the non-dot files present,
+/// those of them that are complete, and the generation its meta.json holds.  None if the image has no readable meta.json.
+pub fn from_image_term(img: &BTreeMap<String, Vec<u8>>, complete: &BTreeSet<String>, ids: &mut PathIds) -> Option<String> {
+    let (mfiles, opstamp) = meta_files(img.get("meta.json")?)?;
+    let files: Vec<u64> = img.keys().filter(|n| !n.starts_with('.') && *n != "meta.json").map(|n| ids.id(n)).collect();
+    let compl: Vec<u64> = img.keys().filter(|n| !n.starts_with('.') && complete.contains(*n)).map(|n| ids.id(n)).collect();
+    // a meta.json may name a <segment>.0.del-style file that never existed: only what exists counts (see dir_state)
+    let mf: Vec<u64> = mfiles.iter().filter(|f| !f.ends_with(".0.del") || img.contains_key(*f)).map(|f| ids.id(f)).collect();
+    Some(format!("(from_image {} {} {} {})", crate::coqfmt::ns(&files), crate::coqfmt::ns(&compl), crate::coqfmt::ns(&mf), opstamp))
+}
+
 pub fn trace_term(evs: &[Ev]) -> String {
     crate::coqfmt::list(evs, ev_term)
 }
@@ -536,6 +547,10 @@ impl CrashSim {
         }
     }
     pub fn num_pending(&self) -> usize { self.pend.len() }
+    /// stream files whose every byte was fsynced (terminated, nothing appended afterwards)
+    pub fn complete_files(&self) -> BTreeSet<String> {
+        self.written.iter().filter(|(n, w)| self.synced.get(*n) == Some(&w.len())).map(|(n, _)| n.clone()).collect()
+    }
     /// kind of each pending directory operation: 'L'ink, 'U'nlink, 'A'tomic replace
     pub fn pending_kinds(&self) -> Vec<char> {
         self.pend.iter().map(|o| match o { DirOp::Link(_) => 'L', DirOp::Unlink(_) => 'U', DirOp::SetAtomic(..) => 'A' }).collect()
@@ -576,13 +591,15 @@ pub struct Recovery {
     pub files_after: Vec<String>,
     pub managed_after: Vec<String>,
     pub living_after: Vec<String>,
+    /// storage log of the recovering process (Index::open, reader, new writer, commit, collection)
+    pub log: Vec<Event>,
 }
 
 /// Opens an image with the real code: Index::open, validate_checksum, full read of the ids,
 /// then a new writer + add + commit + garbage collection + read-back.
 pub fn recover(img: &BTreeMap<String, Vec<u8>>) -> Recovery {
     let vd = VerifDirectory::from_files(img);
-    let mut r = Recovery { opened: false, error: String::new(), ids: None, checksum_clean: false, resumed: false, resume_error: String::new(), files_after: vec![], managed_after: vec![], living_after: vec![] };
+    let mut r = Recovery { opened: false, error: String::new(), ids: None, checksum_clean: false, resumed: false, resume_error: String::new(), files_after: vec![], managed_after: vec![], living_after: vec![], log: vec![] };
     let index = match guarded(|| Index::open(vd.clone())) {
         Ok(Ok(ix)) => ix,
         Ok(Err(e)) => { r.error = format!("{e}"); return r; }
@@ -624,6 +641,7 @@ pub fn recover(img: &BTreeMap<String, Vec<u8>>) -> Recovery {
     }
     let (f, m, l) = dir_state(&vd);
     r.files_after = f; r.managed_after = m; r.living_after = l;
+    r.log = vd.log();
     r
 }
 
@@ -706,7 +724,7 @@ pub fn meta_write_failure_then_gc(variant: &'static str) -> MetaFailure {
     let faults_fired = vd.faults_fired();
     let img: BTreeMap<String, Vec<u8>> = vd.files().into_iter().filter(|(n, _)| !n.starts_with(".tantivy-")).collect();
     let after_drop = recover(&img);
-    let empty = || Recovery { opened: false, error: "scenario did not get that far".into(), ids: None, checksum_clean: false, resumed: false, resume_error: String::new(), files_after: vec![], managed_after: vec![], living_after: vec![] };
+    let empty = || Recovery { opened: false, error: "scenario did not get that far".into(), ids: None, checksum_clean: false, resumed: false, resume_error: String::new(), files_after: vec![], managed_after: vec![], living_after: vec![], log: vec![] };
     MetaFailure { variant, committed, attempted, failed_call_reported_error: reported, faults_fired, after_gc: after_gc.unwrap_or_else(empty), after_drop, log: vd.log(), panicked }
 }
 
